@@ -17,7 +17,7 @@ func (c01) Count(tier string) int {
 	return 400
 }
 
-const tsBase = int64(1_000_000_000_000_000) // 1e15 ns ≈ 11.6 days after the epoch
+const tsBase = int64(1_000_000_000_000_000)        // 1e15 ns ≈ 11.6 days after the epoch
 const farFuture = int64(7_258_118_400_000_000_000) // year 2200
 
 // genWindowOps builds an event-time op sequence on the lattice k*unit + {0,1,unit-1} plus jitter.
